@@ -253,12 +253,12 @@ fn seqs(ops: &[Vec<i64>], depth: usize, prefix: &mut Vec<i64>, head: &[i64], sin
 
 pub fn gen(rng: &mut Rng, thorough: bool, sink: &mut Sink) {
   // string-level queries: fragments that look like the start of a DID, repeated '#', relative forms, other DIDs
-  { let frags = ["f1", "didcomm", "did", "did:x", "key-1", "DID", "d", "di", "dide", "a:b"];
+  { let frags = ["f1", "didcomm", "did", "did:x", "key-1", "DID", "d", "di", "dide", "a:b", "keys/1", "k?r=2", "a/b?c"];
     let mk = |q: &str, ids: &[(usize, &str)]| -> Vec<i64> { let mut c = vec![-9]; put_bytes(&mut c, q.as_bytes()); c.push(ids.len() as i64); for (d, f) in ids { put_bytes(&mut c, DIDS[*d].as_bytes()); c.push(1); put_bytes(&mut c, f.as_bytes()); } c };
     let all: Vec<(usize, &str)> = frags.iter().map(|f| (1usize, *f)).chain(frags.iter().take(4).map(|f| (2usize, *f))).collect();
     let mut qs: Vec<String> = vec!["".into(), "#".into(), DIDS[1].into(), format!("{}#", DIDS[1]), "did".into(), "did:".into(), "#did".into()];
-    for f in frags.iter() { qs.push(f.to_string()); qs.push(format!("#{f}")); qs.push(format!("{}#{f}", DIDS[1])); qs.push(format!("{}#{f}", DIDS[2])); qs.push(format!("{}/p?q=1#{f}", DIDS[1])); qs.push(format!("{}?q=1#{f}", DIDS[2])); qs.push(format!("?q#{f}")); qs.push(format!("/p#{f}")); qs.push(format!("x#y#{f}")); qs.push(format!("{f}#")); qs.push(format!("did:example:other#{f}")); }
-    for q in &qs { sink.case(mk(q, &all), "query-text"); let rev: Vec<(usize, &str)> = all.iter().rev().cloned().collect(); sink.case(mk(q, &rev), "query-text"); sink.case(mk(q, &all[3..9]), "query-text"); }
+    for f in frags.iter() { qs.push(f.to_string()); qs.push(format!("#{f}")); qs.push(format!("{}#{f}", DIDS[1])); qs.push(format!("{}#{f}", DIDS[2])); qs.push(format!("{}/p?q=1#{f}", DIDS[1])); qs.push(format!("{}?q=1#{f}", DIDS[2])); qs.push(format!("?q#{f}")); qs.push(format!("/p#{f}")); qs.push(format!("x#y#{f}")); qs.push(format!("{f}#")); qs.push(format!("did:example:other#{f}")); qs.push(format!("{}?relativeRef=/x#{f}", DIDS[1])); qs.push(format!("{}?a=b?c#{f}", DIDS[1])); qs.push(format!("{}/p/q?r=/s#{f}", DIDS[2])); }
+    for q in &qs { sink.case(mk(q, &all), "query-text"); let rev: Vec<(usize, &str)> = all.iter().rev().cloned().collect(); sink.case(mk(q, &rev), "query-text"); sink.case(mk(q, &all[3..9]), "query-text"); sink.case(mk(q, &all[8..14]), "query-text"); }
     let _ = (&rng, thorough); }
   let small = all_ops(true); let full = all_ops(false);
   for st in starts() {
